@@ -5,7 +5,7 @@ from common import from_replay, to_replay  # noqa: F401
 
 PID = "C06"
 COQ_MODULE = "Prop_C06"
-THEOREMS = ['C06_one_key', 'C06_call_effect']
+THEOREMS = ['C06_one_key', 'C06_call_effect', 'C06_every_schedule_key_in_use_flag_set']
 CASE_MODULES = ["Monitors"]
 CHECK_WITHOUT_PROOF = True
 TRUSTED = common.TRUSTED_COMMON
